@@ -274,12 +274,12 @@ func specInScope(stack []scope, n int, s scope) bool {
 //
 //@ func (*Parser).evaluateSwitch
 //@   loop @"CLOSING_CURLY_BRACKET" invariant[C01,C12] the-token-decided-on-is-the-current-token: nextToken == p.peek()
-//@   loop @"CLOSING_CURLY_BRACKET" invariant[C01] one-branch-per-case: (useMock ==> calls(evaluateExpression) == ite(old(p.peekAt(1)).tokenType == lexer.OPENING_CURLY_BRACKET, 0, 1) && len(fakeIf.elifBranches) == 0) && (!useMock ==> 1 + len(fakeIf.elifBranches) == calls(evaluateExpression) - ite(old(p.peekAt(1)).tokenType == lexer.OPENING_CURLY_BRACKET, 0, 1))
-//@   ensures[C01] one-branch-per-case-in-order: err == nil && calls(evaluateExpression) > ite(old(p.peekAt(1)).tokenType == lexer.OPENING_CURLY_BRACKET, 0, 1) ==> isType(result0, "parser.If") && 1 + len(asType(result0, "parser.If").elifBranches) == calls(evaluateExpression) - ite(old(p.peekAt(1)).tokenType == lexer.OPENING_CURLY_BRACKET, 0, 1)
+//@   loop @"CLOSING_CURLY_BRACKET" invariant[C01,C04] one-branch-per-case: (useMock ==> calls(evaluateExpression) == ite(old(p.peekAt(1)).tokenType == lexer.OPENING_CURLY_BRACKET, 0, 1) && len(fakeIf.elifBranches) == 0) && (!useMock ==> 1 + len(fakeIf.elifBranches) == calls(evaluateExpression) - ite(old(p.peekAt(1)).tokenType == lexer.OPENING_CURLY_BRACKET, 0, 1))
+//@   ensures[C01,C04] one-branch-per-case-in-order: err == nil && calls(evaluateExpression) > ite(old(p.peekAt(1)).tokenType == lexer.OPENING_CURLY_BRACKET, 0, 1) ==> isType(result0, "parser.If") && 1 + len(asType(result0, "parser.If").elifBranches) == calls(evaluateExpression) - ite(old(p.peekAt(1)).tokenType == lexer.OPENING_CURLY_BRACKET, 0, 1)
 //
 //@ func (*Parser).evaluateImports
-//@   loop @"range usedFuncs" invariant[C09] merge-keeps-imported-edges: has(p.usedFuncs, funcName) && forall(k, 0, rangeindex + 1, inList(get(p.usedFuncs, funcName), usedFuncs[k])) && samePrefix(foundUsedFuncs, get(p.usedFuncs, funcName))
-//@   loop @"range usedFuncs" exit[C09] every-imported-edge-of-this-caller-merged: forall(k, 0, len(usedFuncs), inList(get(p.usedFuncs, funcName), usedFuncs[k]))
+//@   loop @"range usedFuncs" invariant[C09,C16] merge-keeps-imported-edges: has(p.usedFuncs, funcName) && forall(k, 0, rangeindex + 1, inList(get(p.usedFuncs, funcName), usedFuncs[k])) && samePrefix(foundUsedFuncs, get(p.usedFuncs, funcName))
+//@   loop @"range usedFuncs" exit[C09,C16] every-imported-edge-of-this-caller-merged: forall(k, 0, len(usedFuncs), inList(get(p.usedFuncs, funcName), usedFuncs[k]))
 //@   loop @"range statementsTemp" invariant[C09] imported-top-level-code-kept: len(statements) >= specCountOther(statementsTemp, rangeindex + 1)
 //
 // A parser always has a non-negative token index and a call-graph map; a context that is handed
@@ -301,6 +301,7 @@ func specInScope(stack []scope, n int, s scope) bool {
 //@ postcondition (*Parser) [C07] callers-contexts-untouched: mapsKept("Mp_String_S_parser_Variable") && mapsKept("Mp_String_S_parser_FunctionDefinition") && mapsKept("Mp_String_String")
 //
 //@ func (*Parser).evaluateImports
+//@   loop @"for#1" exit[C12] blank-lines-before-the-imports-are-all-skipped: p.peek().tokenType != lexer.NEWLINE
 //@   callsite parse requires[C13] never-a-file-that-is-still-being-parsed: arg1 != p.path && !inList(p.importers, arg1) && arg2
 //@   flag nocommon: true
 //@   flag notypeinv: true
@@ -355,7 +356,7 @@ func specInScope(stack []scope, n int, s scope) bool {
 //@ func (*Parser).evaluateVarAssignment
 //@   loop @"range evaluatedVals.values" invariant[C06] types-of-the-values: len(valuesTypes) == rangeindex + 1 && forall(k, 0, rangeindex + 1, valuesTypes[k] == res(evaluateValues, 0, 0).values[k].ValueType())
 //@   ensures[C06] value-k-has-the-type-of-variable-k: err == nil && isType(result0, "parser.VariableAssignment") ==> len(asType(result0, "parser.VariableAssignment").values) == len(asType(result0, "parser.VariableAssignment").variables) && forall(k, 0, len(asType(result0, "parser.VariableAssignment").variables), specTyped(asType(result0, "parser.VariableAssignment").values[k]) && asType(result0, "parser.VariableAssignment").values[k].ValueType() == asType(result0, "parser.VariableAssignment").variables[k].valueType)
-//@   loop @"range nameTokens" invariant[C02] targets-are-the-defined-variables: len(variables) == rangeindex + 1 && forall(k, 0, rangeindex + 1, has(ctx.variables, specVarKey(ctx, res(evaluateVarNames, 0, 0)[k].value, p.prefix)) && variables[k] == get(ctx.variables, specVarKey(ctx, res(evaluateVarNames, 0, 0)[k].value, p.prefix)))
+//@   loop @"range nameTokens" invariant[C02,C09] targets-are-the-defined-variables: len(variables) == rangeindex + 1 && forall(k, 0, rangeindex + 1, has(ctx.variables, specVarKey(ctx, res(evaluateVarNames, 0, 0)[k].value, p.prefix)) && variables[k] == get(ctx.variables, specVarKey(ctx, res(evaluateVarNames, 0, 0)[k].value, p.prefix)))
 //@   loop @"range nameTokens" invariant[C06] variable-k-has-the-type-of-value-k: forall(k, 0, rangeindex + 1, variables[k].valueType == valuesTypes[k]) && len(valuesTypes) == len(res(evaluateVarNames, 0, 0))
 //
 //@ func (*Parser).evaluateIncrementDecrement
@@ -395,10 +396,10 @@ func specInScope(stack []scope, n int, s scope) bool {
 //@   ensures[C06] typed-operation-on-the-defined-variable: err == nil ==> isType(result0, "parser.VariableAssignment") && len(asType(result0, "parser.VariableAssignment").values) == 1 && specTyped(asType(result0, "parser.VariableAssignment").values[0])
 //
 //@ func (*Parser).evaluateBreak
-//@   ensures[C07] only-in-loop-or-switch: (err == nil) == (specInScope(ctx.scopeStack, len(ctx.scopeStack), "for") || specInScope(ctx.scopeStack, len(ctx.scopeStack), "switch"))
+//@   ensures[C07,C13] only-in-loop-or-switch: (err == nil) == (specInScope(ctx.scopeStack, len(ctx.scopeStack), "for") || specInScope(ctx.scopeStack, len(ctx.scopeStack), "switch"))
 //
 //@ func (*Parser).evaluateContinue
-//@   ensures[C07] only-in-loop: (err == nil) == specInScope(ctx.scopeStack, len(ctx.scopeStack), "for")
+//@   ensures[C07,C13,C16] only-in-loop: (err == nil) == specInScope(ctx.scopeStack, len(ctx.scopeStack), "for")
 //
 //@ func (*Parser).evaluateReturn
 //@   ensures[C07] only-in-function: !specInScope(ctx.scopeStack, len(ctx.scopeStack), "function") ==> err != nil
@@ -416,10 +417,10 @@ func specInScope(stack []scope, n int, s scope) bool {
 //@   ensures[C09] bound: has(c.imports, alias) && get(c.imports, alias) == hash && result == nil
 //
 //@ func (context).findFunction
-//@   ensures[C09] unknown-alias-finds-nothing: len(strings.TrimSpace(prefix)) > 0 && !has(c.imports, strings.TrimSpace(prefix)) ==> !result1
+//@   ensures[C09,C07] unknown-alias-finds-nothing: len(strings.TrimSpace(prefix)) > 0 && !has(c.imports, strings.TrimSpace(prefix)) ==> !result1
 //
 //@ func (context).findVariable
-//@   ensures[C09] unknown-alias-finds-nothing: global && len(strings.TrimSpace(prefix)) > 0 && !has(c.imports, strings.TrimSpace(prefix)) ==> !result1
+//@   ensures[C09,C07] unknown-alias-finds-nothing: global && len(strings.TrimSpace(prefix)) > 0 && !has(c.imports, strings.TrimSpace(prefix)) ==> !result1
 
 func asExprFromCall(c Call) Expression { return c }
 
